@@ -47,7 +47,7 @@ def run(ctx):
             any(s["op"] == "fetch" for s in steps) and any(s["op"] == "clean" and s["exists"] and s["ret"] for s in steps)):
         raise vlib.ToolError("vacuous case set")
     # 2. two wrong variants must be rejected by TLC
-    for cfg, inv in (("MCClean_dev3.cfg", "ProtectedUntouched"), ("MCClean_dev.cfg", "OnlyStrangersRemoved"),
+    for cfg, inv in (("MCClean_dev3.cfg", "ProtectedUntouched"), ("MCClean_dev4.cfg", "OnlyStrangersRemoved"), ("MCClean_dev.cfg", "OnlyStrangersRemoved"),
                      ("MCClean_dev2.cfg", "WholeRepoOnlyWithoutSigrefs")):
         dev = ctx.tlc("MCClean", cfg, workers=2, timeout=300, coverage=False, count=False,
                       label=f"sanity: wrong variant must violate {inv}")
@@ -62,10 +62,14 @@ def run(ctx):
         rnd = random.Random(ctx.seed)
         strata = {}
         for c in sorted(cases, key=lambda c: json.dumps(c, sort_keys=True)):
-            strata.setdefault((",".join(c["delegates"]), c["init"]["L"], c["iddoc"]), []).append(c)
+            # a peer yielded twice by remote_ids (namespace state signed2): as delegate, as stranger
+            twice = ("d" if c["init"]["d1"] == "signed2" and "d1" in c["delegates"] else "") + ("o" if "signed2" in (c["init"]["o"], c["init"]["d1"] if "d1" not in c["delegates"] else "") else "")
+            strata.setdefault((",".join(c["delegates"]), c["init"]["L"], c["iddoc"], twice), []).append(c)
         chosen = []
         for k in sorted(strata):
             chosen += rnd.sample(strata[k], min(6 if k[2] == "ok" else 4, len(strata[k])))
+    if not any(c["init"]["d1"] == "signed2" and "d1" in c["delegates"] and c["init"]["L"] == "signed" and c["iddoc"] == "ok" for c in chosen):
+        raise vlib.ToolError("vacuous case set: no delegate whose namespace is yielded twice")
     cpath = ctx.write_cases(chosen)
     out = os.path.join(ctx.work, "verdicts.ndjson")
     ctx.engine(ENGINE, ["--mode", "replay", "--cases", cpath, "--out", out, "--threads", 6], timeout=3000)
